@@ -311,6 +311,10 @@ func (l *PartitionLog) Flush(ctx context.Context) error {
 		l.flushCond.Wait()
 	}
 	artifact, err := l.prepareFlush()
+	// With nothing to flush and no flush in flight, every assigned offset is in a
+	// committed segment. Read it in this critical section: after the unlock another
+	// producer may append, and its merely buffered offset must not be published.
+	current := l.nextOffset - 1
 	l.mu.Unlock()
 	if err != nil {
 		return err
@@ -324,9 +328,6 @@ func (l *PartitionLog) Flush(ctx context.Context) error {
 	if l.onFlush != nil {
 		target := artifact
 		if target == nil {
-			l.mu.Lock()
-			current := l.nextOffset - 1
-			l.mu.Unlock()
 			if current >= 0 {
 				target = &SegmentArtifact{LastOffset: current}
 			}
